@@ -56,8 +56,18 @@ class LabelError(Exception):
     pass
 
 
+_RESOLVED = None
+
+
 def resolve_labels():
-    """-> ({code: {lineno: label}}, {code: set(lineno)} of *unlabelled* lines touching the shared maps)."""
+    """-> ({code: {lineno: label}}, set(lineno) of *unlabelled* lines touching the shared maps)."""
+    global _RESOLVED
+    if _RESOLVED is None:
+        _RESOLVED = _resolve_labels()
+    return _RESOLVED
+
+
+def _resolve_labels():
     C = strax.Context
     by_code = {}
     for lab, (fname, pat, occ) in LABELS.items():
@@ -101,6 +111,7 @@ class Worker:
         self.exc = None
         self.unlabelled = []    # (function, lineno) of unlabelled shared-map lines executed
         self.exc_frame = None
+        self.budget = 0         # labelled lines the thread may still execute before handing the baton back
         self.thread = None
 
 
@@ -147,15 +158,17 @@ class Interleaver:
         return glob
 
     def _park(self, w, lab):
-        with self.cv:
-            w.parked_at = lab
-            self.active = None
-            self.cv.notify_all()
-            while self.active != w.tid:
-                self.cv.wait()
-            w.parked_at = None
-            w.trace.append(lab)
-            self.steps.append((w.tid, lab))
+        if w.budget <= 0:
+            with self.cv:
+                w.parked_at = lab
+                self.active = None
+                self.cv.notify_all()
+                while self.active != w.tid:
+                    self.cv.wait()
+                w.parked_at = None
+        w.budget -= 1
+        w.trace.append(lab)
+        self.steps.append((w.tid, lab))
 
     def _body(self, w):
         with self.cv:
@@ -174,9 +187,10 @@ class Interleaver:
                 self.active = None
                 self.cv.notify_all()
 
-    def _give(self, w):
-        """hand the baton to w and wait until it parks again or finishes"""
+    def _give(self, w, n=1):
+        """hand the baton to w for n steps and wait until it parks again or finishes"""
         with self.cv:
+            w.budget = n
             self.active = w.tid
             self.cv.notify_all()
             ok = self.cv.wait_for(lambda: self.active is None, timeout=self.timeout)
@@ -184,31 +198,30 @@ class Interleaver:
                 raise RuntimeError("interleaver: thread %d neither parked nor finished within %ss" % (w.tid, self.timeout))
 
     # -- running --------------------------------------------------------------------------------
-    def run(self, fns, schedule, drain=True):
+    def run(self, fns, segs, drain=True):
+        """segs: run-length schedule [(tid, nsteps), ...]"""
         ws = [Worker(i, f) for i, f in enumerate(fns)]
         for w in ws:
             w.thread = threading.Thread(target=self._body, args=(w,), daemon=True)
             w.thread.start()
         try:
             for w in ws:           # run every thread up to its first labelled line
-                self._give(w)
-            for tid in schedule:
-                if tid < len(ws) and not ws[tid].finished:
-                    self._give(ws[tid])
+                self._give(w, 0)
+            for tid, n in segs:
+                if tid < len(ws) and not ws[tid].finished and n > 0:
+                    self._give(ws[tid], n)
             if drain:
                 for w in ws:
-                    while not w.finished:
-                        self._give(w)
+                    if not w.finished:
+                        self._give(w, 10 ** 9)
         finally:
             # never leave threads behind
             for w in ws:
-                guard = 0
-                while not w.finished and guard < 100000:
-                    guard += 1
+                if not w.finished:
                     try:
-                        self._give(w)
+                        self._give(w, 10 ** 9)
                     except RuntimeError:
-                        break
+                        pass
         for w in ws:
             w.thread.join(timeout=self.timeout)
         return ws
